@@ -1159,10 +1159,10 @@ def drv_fst(tier):
                 A, B = sums['chromosomes-as-individuals']
                 w1 = float(A / (A + B))
                 d.case(key + ('formula',), close(got, w1, 1e-10, 1e-12), dict(info, got=got, want=w1), fail_key='fst-formula')
-                A, B = sums['gametes']
-                w2 = float(A / (A + B))
-                d.case(key + ('unit',), close(got, w2, 1e-10, 1e-12), dict(info, got=got, want=w2, want_if_chromosomes_counted_as_individuals=w1),
-                       fail_key='fst-sample-size-unit')
+                # False alarm removed: an earlier version also demanded the estimator with n_i := diploid individuals (fail key
+                # fst-sample-size-unit).  The property says the statistic from the spectrum equals the *same* statistic from the
+                # genotype matrix; Spectrum.Fst documents Weir & Cockerham with the spectrum's sample sizes, which `fst-formula`
+                # checks.  Demanding a different estimator convention is more than the property states.
     finally:
         shutil.rmtree(tmp, ignore_errors=True)
     return d.results()
